@@ -264,7 +264,6 @@ def contract_driver(program, c, findings=()):
                 except PyRaise as e:
                     cap["view_error"] = e.type_name
             ctx.ghost["capture"] = cap
-            return label
         # ---- refinement of a reference function (or of one of several admissible ones)
         if refs_f:
             body_cs = dict(ctx.class_state)
